@@ -68,7 +68,7 @@ def read_fts_gff(f, filt=None, filt_fast=None, default_ftype=None, comments=None
         attrs = {}
         if attrcol != '.':
             for kv in attrcol.split(';'):
-               k, v = kv.strip().split('=')
+               k, v = kv.strip().split('=', 1)
                attrs[unquote(k.strip())] = (
                    unquote(v.strip()) if ',' not in v else
                    [unquote(vv.strip()) for vv in v.strip().split(',')])
